@@ -528,7 +528,14 @@ class CHText:
                 ) from err
 
         # read fill character
-        filler_ch = format_spec[0] if align_ch_pos == 1 else ' '
+        if align_ch_pos == 1:
+            filler_ch = format_spec[0]
+        elif width_part.startswith('0'):
+            # width with the '0' flag and no explicit fill character: python
+            # strings are padded with zeros in this case
+            filler_ch = '0'
+        else:
+            filler_ch = ' '
 
         # prepare filler prefix and suffix
         filler_width = max(width - self.scrlen, 0)
